@@ -1,5 +1,6 @@
 SPECIFICATION Spec
 CONSTANT Depth = 14
+CONSTANT DebugOn = TRUE
 INVARIANT Emit
 INVARIANT SwitchIsLastValid
 INVARIANT NeverRejectsValid
